@@ -50,4 +50,9 @@ MUTANTS = [
     {"id": "c04-n-rename", "expect": "silent", "edits": [(L, "cur_span_start_pos", "span_opened_at", 3)]},
     {"id": "c04-orig-text-cuts-callers-list", "expect": "fire", "edits": [(L, "            assert end_c <= len(lines[end_l])\n            result_lines.append(lines[end_l][:end_c])", "            assert end_c <= len(lines[end_l])\n            lines[end_l] = lines[end_l][:end_c]\n            result_lines.append(lines[end_l])")]},
     {"id": "c04-n-orig-text-copies-list", "expect": "silent", "edits": [(L, "            # the text is already a list of strings\n            lines = text", "            # the text is already a list of strings\n            lines = list(text)")]},
+    # R04c on the inlined parse, names resolved by reaching definitions
+    {"id": "c04-empty-node-at-token-end", "expect": "fire", "edits": [(L, "                    cur_src_pos = tokens[top.cur_token_pos].start_pos\n", "                    cur_src_pos = tokens[top.cur_token_pos].end_pos\n")]},
+    {"id": "c04-empty-node-at-previous-token", "expect": "fire", "edits": [(L, "                    cur_src_pos = tokens[top.cur_token_pos].start_pos\n", "                    cur_src_pos = tokens[top.cur_token_pos - 1].start_pos\n")]},
+    {"id": "c04-empty-span-for-all-nodes", "expect": "fire", "edits": [(L, "                if len(new_elem_value) == 0:\n", "                if len(new_elem_value) >= 0:\n")]},
+    {"id": "c04-n-empty-test-truthiness", "expect": "silent", "edits": [(L, "                if len(new_elem_value) == 0:\n", "                if not new_elem_value:\n")]},
 ]
